@@ -57,6 +57,16 @@ impl<'a> PayIter<'a> {
         ensures r.v@ == self.v@, r.f == f
     { unimplemented!() }
 }
+impl<'a> PayIter<'a> {
+    /// find_map(f) == filter_map(f).next(): the first element for which f returns Some
+    #[verifier::external_body]
+    pub fn find_map<B, F: FnMut(&'a ListsendpaysPayments) -> Option<B>>(&mut self, f: F) -> (r: Option<B>)
+        requires forall|x: &ListsendpaysPayments| call_requires(f, (x,)),
+        ensures
+            r is None ==> forall|i: int| 0 <= i < old(self).v@.len() ==> call_ensures(f, (&(#[trigger] old(self).v@[i]),), None::<B>),
+            r is Some ==> exists|i: int| 0 <= i < old(self).v@.len() && call_ensures(f, (&(#[trigger] old(self).v@[i]),), r),
+    { unimplemented!() }
+}
 impl<'a, F> PayFilterMap<'a, F> {
     #[verifier::external_body]
     pub fn next<B>(&mut self) -> (r: Option<B>) where F: FnMut(&'a ListsendpaysPayments) -> Option<B>
